@@ -73,7 +73,7 @@ def run_tlc(module, cfg=None, env=None, workers=4, heap="3g", timeout=1800, extr
     meta = scratch_dir("tlcmeta-")
     cfg = cfg or module + ".cfg"
     gc = "-XX:+UseSerialGC" if workers <= 4 else "-XX:+UseParallelGC"
-    cmd = ["java", gc, f"-Xmx{heap}", "-cp", CP]
+    cmd = ["java", gc, f"-Xmx{heap}", "-Xss64m", "-cp", CP]
     if env and env.get("_DFS"):
         cmd.insert(1, "-Dtlc2.tool.queue.IStateQueue=StateDeque")
     cmd += ["tlc2.TLC", "-workers", str(workers), "-noGenerateSpecTE", "-metadir", meta, "-config", cfg]
